@@ -499,6 +499,34 @@ def run(chk: Check) -> None:
             chk.divergence("bind.run", {**m, "trace": tr}, "trace of the implementation", b[:300])
     chk.extra["model_ops_compared"] = len(reqs)
     chk.extra["traces_validated"] = len(reqs)
+    # which packet an end reports as its own Offer / Accept (binding_fsm._own_pkt; theorems C20Tuple.ownPkt_header / ownPkt_not_peers):
+    # every frame of every flow as the command, every frame of that flow as what the send layer handed back
+    try:
+        from datetime import datetime as _dt
+
+        from ramses_rf.binding_fsm import _own_pkt
+        from ramses_tx.command import Command
+        from ramses_tx.packet import Packet
+
+        from ..common import esc
+
+        own_reqs, own_impl = [], []
+        for name, fl in FLOWS.items():
+            for c in fl[2][:2]:
+                for p_ in fl[2]:
+                    cmd = Command(c)
+                    got = _own_pkt(cmd, Packet(_dt.now(), "000 " + p_))
+                    own_reqs.append(f"bind.own\t{esc(c)}\t{esc(p_)}")
+                    own_impl.append("ok\t" + ("cmd" if str(got) == str(cmd) else "pkt"))
+                    if str(got)[:41] != str(cmd)[:41]:
+                        chk.violation("c20.own_packet.is_the_peers", f"{name}: for its own {c[:45]!r} an end that was handed {p_[:45]!r} reports {str(got)[:45]!r}",
+                                      {"op": "bind.own", "cmd": c, "pkt": p_})
+        for r, a, b in zip(own_reqs, own_impl, Model().run(own_reqs)):
+            if a != b:
+                chk.divergence("bind.own", {"request": r}, a, b)
+        chk.extra["model_ops_compared"] += len(own_reqs)
+    except ImportError:
+        chk.count("bind.own.not_present")     # (a tree without the repair fa17a7d: the tuple oracle of the own-first-echo-lost family decides)
     chk.sample({"flow": "RND>CTL", "policy": "every frame heard twice by both ends, a third-party Offer 15 ms in", "expect": "both succeed with the same three packets"})
 
 
